@@ -372,6 +372,18 @@ def coll_oracle(interp, env, f, args, t, bb, path):
             v0 = It(list(range(lo, hi)))
     if dk in ("core::iter::sources::repeat::repeat", "core::iter::repeat"):
         return Agg("repeat", None, None, [args[0]])
+    if dk in ("core::iter::sources::repeat_with::repeat_with", "core::iter::repeat_with"):
+        return Agg("repeat_with", None, None, [args[0]])
+    if isinstance(v0, Agg) and v0.kind == "repeat_with":
+        if nm == "take" and isinstance(args[1], int):
+            out = []
+            for _ in range(args[1]):
+                r = _call1(interp, v0.fields[0], [])
+                if r is None:
+                    return TOP
+                out.append(r)
+            return It(out)
+        return TOP
     if isinstance(v0, Agg) and v0.kind == "repeat":
         if nm == "take" and isinstance(args[1], int):
             return It([v0.fields[0]] * args[1])
